@@ -14,6 +14,10 @@ import VProofs.Lemmas.EvalFloatBetween
 import VProofs.Lemmas.EvalI32
 import VProofs.Lemmas.EvalFmtDigits
 import VProofs.Lemmas.EvalFmtReport
+import VProofs.Lemmas.EvalFmtString
+import VProofs.Lemmas.EvalFmtIff
+import VProofs.Lemmas.EvalFmtShortest
+import VProofs.Lemmas.EvalFmtExponent
 /-!
 # C20 — Command-line tools agree with the library, line by line
 
@@ -344,6 +348,54 @@ theorem C20_eval_display_injective (s t : Bool) (a b : Nat) (hx : F64.IsDouble (
   have h2 := C20_eval_display_roundtrip t b hy hb
   rw [h, h2] at h1
   exact (F64.fin.inj h1).2.symm
+
+/-- … and the printed TEXT identifies the double, sign included: two finite doubles with the same `format!("{}", x)` are the
+same double (the three layouts `0.000ddd`, `ddd000`, `dd.ddd` of `digits_to_dec_str` determine digits and exponent because
+the first and the last digit are not `0`; `0` and `-0` print differently) -/
+theorem C20_eval_display_text_injective (s t : Bool) (a b : Nat) (hx : F64.IsDouble (.fin s a))
+    (hy : F64.IsDouble (.fin t b)) (h : f64Display (.fin s a) = f64Display (.fin t b)) :
+    (F64.fin s a : F64) = .fin t b := by
+  obtain ⟨hs, hm⟩ := FmtL.display_fin_inj s t a b hx.2 hy.2 h
+  have hab : a = b := FmtL.magText_inj a b hx.2 hy.2 hx.1 hy.1 hm
+  rw [hs, hab]
+
+/-- reading back, characterised: a digit string `0.d₁…d_k × 10^e` parses (correctly rounded, ties to even) to the non-zero double
+`a` EXACTLY when its value lies in the rounding interval of `a` — between the midpoints to the neighbouring doubles (a quarter
+step below a power of two), end points included when the significand of `a` is even.  `round_of_interval` is one direction;
+the other one is new: nothing outside the interval rounds to `a` -/
+theorem C20_eval_display_interval_iff (s : Bool) (a : Nat) (hd : F64.IsDouble (.fin s a)) (ha : 0 < a)
+    (ds : List Nat) (e : Int) :
+    decimalToF64 ds e = .fin false a ↔ decInInterval a (ofDigits ds) (e - (ds.length : Int)) = true :=
+  FmtL.decimal_interval_iff a ha hd.1 hd.2 ds e
+
+/-- the printed digit string is a SHORTEST one: for a finite non-zero double `a` no digit string with fewer digits than
+`format_shortest` produces reads back as `a`, whatever its exponent — under the hypothesis `FmtL.f64ShortestFoundWithinFuel a`
+(a `Bool`, checked by evaluation in the examples below): the search of `f64ShortestDec` ends within its 20 rounds instead of
+falling back to the exact expansion.  This holds for every double (17 digits always suffice), but that general fact is not
+proved here, hence `_partial`.  The proof: what reads back as `a` lies in the rounding interval
+(`C20_eval_display_interval_iff`), rounding is monotone, so with any `k`-digit decimal one of the two `k`-digit neighbours of
+`a` at the scale `10^(e−k)` reads back as well and the search would have stopped there; `decExponent a` is the decimal exponent
+(`10^(e−1) ≤ a·2^-1074 < 10^e`, `FmtL.decExponent_ok`), so a decimal at a finer scale has more digits and one at a coarser
+scale is on the other side of a power of ten, which then is a one-digit decimal that reads back -/
+theorem C20_eval_display_shortest_partial (s : Bool) (a : Nat) (hd : F64.IsDouble (.fin s a)) (ha : 0 < a)
+    (hok : FmtL.f64ShortestFoundWithinFuel a = true) (ds' : List Nat) (e' : Int)
+    (hlen : ds'.length < (f64ShortestDigits a).1.length) (hdig : ∀ d ∈ ds', d < 10) (hne : ds' ≠ []) :
+    decimalToF64 ds' e' ≠ .fin false a :=
+  FmtL.display_shortest_found a ha hd.1 hd.2 hok ds' e' hlen hdig hne
+
+/-- the hypothesis holds for: 1.0, the least subnormal, the least normal number, the largest double, 0.1, 1/3, 2/3, 2^53,
+`(2^51 + 1)/4` (the tie of `F64Fmt.lean`) -/
+example : FmtL.f64ShortestFoundWithinFuel F64.unit = true ∧ FmtL.f64ShortestFoundWithinFuel 1 = true ∧
+    FmtL.f64ShortestFoundWithinFuel (2 ^ 52) = true ∧ FmtL.f64ShortestFoundWithinFuel ((2 ^ 53 - 1) * 2 ^ 2045) = true ∧
+    FmtL.f64ShortestFoundWithinFuel ((2 ^ 52 + 0x999999999999A) * 2 ^ (0x3FB - 1)) = true ∧
+    FmtL.f64ShortestFoundWithinFuel ((2 ^ 52 + 0x5555555555555) * 2 ^ (0x3FD - 1)) = true ∧
+    FmtL.f64ShortestFoundWithinFuel ((2 ^ 52 + 0x5555555555555) * 2 ^ (0x3FE - 1)) = true ∧
+    FmtL.f64ShortestFoundWithinFuel (2 ^ 53 * F64.unit) = true ∧
+    FmtL.f64ShortestFoundWithinFuel ((2 ^ 52 + 2) * 2 ^ (0x430 - 1)) = true := by decide +kernel
+
+/-- an instance: `0.1` prints with one digit, `1/3` with sixteen: no digit string of at most fifteen digits parses to `1/3` -/
+example : (f64ShortestDigits ((2 ^ 52 + 0x5555555555555) * 2 ^ (0x3FD - 1))).1.length = 16 ∧
+    (f64ShortestDigits ((2 ^ 52 + 0x999999999999A) * 2 ^ (0x3FB - 1))).1.length = 1 := by decide +kernel
 
 /-- the texts that `evaluate` can print for a metric: `NaN`, `0`, `1`, or `0.` followed by zeros and at least one more digit,
 the last digit not `0` (never an exponent, never a sign, never `inf`) -/
